@@ -46,8 +46,8 @@ ASSUMPTIONS = [
 RANK = {"LIKELY_SAFE": 0, "POSSIBLY_UNSAFE": 1, "SUSPICIOUS": 2, "LIKELY_UNSAFE": 3,
         "LIKELY_OVERTLY_MALICIOUS": 4, "OVERTLY_MALICIOUS": 5}  # fmt: skip
 THRESHOLDS = tuple(RANK)
-STREAMS = ("bytes", "bytesio", "file", "raw_seekable", "non_seekable", "flip")
-PATHS = ("loader", "hook", "hook_threshold", "context", "hook_after_context", "outer_context_after_inner",
+STREAMS = ("bytes", "bytesio", "file", "raw_seekable", "non_seekable", "flip", "file_offset", "mmap_offset")
+PATHS = ("loader", "hook", "hook_threshold", "context", "hook_after_context", "hook_after_lenient_context", "outer_context_after_inner",
          "context_after_ml_cycle")
 FAULTS = (None, "ValueError", "KeyError", "AttributeError", "RecursionError", "MemoryError")
 
@@ -71,6 +71,13 @@ FLAGGED = (
     b"\x80\x04\x8c\x1bverif_canary_pkg.sub.deeper\x8c\x01x\x93.",
 )
 CANARY_ROOTS = ("verif_canary", "verif_canary_pkg")
+_INNER = b"cverif_sink\nsink\n(S'nested'\ntR."
+# argparse.Namespace() whose state is {'v': pickle.load(io.BytesIO(<flagged stream>))} (the outer
+# pickle alone is rated LIKELY_SAFE: standard-library callables only), and a list variant
+NESTED = (
+    b"cargparse\nNamespace\n)R}Vv\ncpickle\nload\n(cio\nBytesIO\n(B" + len(_INNER).to_bytes(4, "little") + _INNER + b"tRtRsb.",
+    b"(cpickle\nload\n(cio\nBytesIO\n(B" + len(_INNER).to_bytes(4, "little") + _INNER + b"tRtRl.",
+)
 PY2_STYLE = (
     b"\x80\x02U\x03abcq\x00.",  # SHORT_BINSTRING: str or bytes depending on `encoding`
     b"c__builtin__\nset\nq\x00]q\x01K\x01a\x85q\x02Rq\x03.",  # needs fix_imports to resolve
@@ -277,6 +284,27 @@ def make_stream(kind, data, scratch, flip_to=None):
             f.write(data)
         fh = open(path, "rb")
         return fh, fh
+    if kind in ("file_offset", "mmap_offset"):
+        # the pickle is the second record of a file; the stream is handed over positioned on it
+        import mmap
+
+        head = pickle.dumps(["header record", 1, 2, 3], protocol=2)
+        path = os.path.join(scratch.path, "c02-records.bin")
+        with open(path, "wb") as f:
+            f.write(head + data)
+        fh = open(path, "rb")
+        if kind == "file_offset":
+            fh.seek(len(head))
+            return fh, fh
+        mm = mmap.mmap(fh.fileno(), 0, access=mmap.ACCESS_READ)
+        mm.seek(len(head))
+
+        class Both:
+            def close(self):
+                mm.close()
+                fh.close()
+
+        return mm, Both()
     if kind == "raw_seekable":
         return RawSeekable(data), None
     if kind == "non_seekable":
@@ -341,6 +369,17 @@ def run_case(data, stream_kind, threshold, path, fault, scratch, flip_to=None, k
                     with fickling.check_safety():
                         pass
                     r = pk.load(src, **kwargs)
+                elif path == "hook_after_lenient_context":
+                    # a with-block asking for a lenient threshold has come and gone: the global
+                    # hook is back to what it was
+                    fickling.always_check_safety()
+                    try:
+                        with fickling.check_safety(max_acceptable_severity=Severity.OVERTLY_MALICIOUS):
+                            pass
+                    except TypeError:
+                        with fickling.check_safety():
+                            pass
+                    r = pk.load(src, **kwargs)
                 elif path == "outer_context_after_inner":
                     with fickling.check_safety():
                         with fickling.check_safety():
@@ -383,6 +422,15 @@ def run_case(data, stream_kind, threshold, path, fault, scratch, flip_to=None, k
     def fail(msg):
         return Failure(case, f"{path} on {data!r} via {stream_kind} (T={threshold}, fault={fault}): {msg}"), klass
 
+    if data in NESTED and path != "loader" and not fault and flip_to is None:
+        # an accepted outer pickle performs pickle.load on an embedded, flagged stream while the
+        # check is armed: that load is a load through the pickle module like any other
+        if log or any(e[1] == "verif_sink" for e in evs):
+            return fail(f"the nested pickle.load of a flagged stream was executed although the check is armed "
+                        f"(outcome {outcome[0]}: {outcome[1]!r}; sink {log!r}; resolved {evs!r})")
+        if outcome[0] == "returned":
+            return fail(f"returned {outcome[1]!r} although the nested stream is flagged")
+        return None, "nested-" + klass
     acceptable = v[0] == "ok" and not fault and RANK[v[1]] <= RANK[eff_T]
     if outcome[0] != "returned" and not acceptable:
         # fail-closed clause: the load was refused (verdict too high, analysis failed, fault)
@@ -488,7 +536,7 @@ def _payloads():
     trailing = st.tuples(st.one_of(nat, flagged), st.one_of(flagged, nat, st.binary(max_size=6))).map(
         lambda t: t[0] + t[1]
     )
-    return st.one_of(nat, flagged, flagged, raises, trunc, trailing, st.sampled_from(PY2_STYLE))
+    return st.one_of(nat, flagged, flagged, raises, trunc, trailing, st.sampled_from(PY2_STYLE), st.sampled_from(NESTED))
 
 
 def _case_strategy():
